@@ -182,7 +182,9 @@ Base(b) ==
       [] b = "single"  -> [pkgs |-> << Pkg(PkgNames[1], << File("a", <<>>, << ObjectDecl(DeclNames[1][1], <<>>) >>) >>) >>]
       [] b = "onefile" -> [pkgs |-> << Pkg(PkgNames[1], << File("a", <<>>, <<>>) >>) >>]
       \* cross-file references inside one package: file b holds the targets, file a is worked on
-      [] b = "twofile" -> [pkgs |-> << Pkg(PkgNames[1], << File("a", <<>>, << ObjectDecl(DeclNames[1][1], <<>>) >>), TargetFile("b", 2) >>) >>]
+      \* (Apple already has an inline object field: its nested type GammaOne is what a later, deeper GammaOne may capture)
+      [] b = "twofile" -> [pkgs |-> << Pkg(PkgNames[1], << File("a", <<>>, << ObjectDecl(DeclNames[1][1],
+                                                                 << Plain(FieldNames[1], InlineObject(NoName, <<MinField(1)>>)) >>) >>), TargetFile("b", 2) >>) >>]
       \* cross-package references: package 1 holds the targets, package 2's file imports it in the three documented ways
       \* (package 2 declares its own Apple and already refers to both Apples: a reference must be kept by package, not by name)
       [] b = "twopkg"  -> [pkgs |-> << Pkg(PkgNames[1], << TargetFile("a", 1) >>),
@@ -415,10 +417,18 @@ FieldChoices(b, c, n) ==
         selfname == IF ~full THEN {} ELSE
                     {[e |-> Plain(Name(GetNode(b, c.path).name.w, "camel"), InlineObject(NoName, <<MinField(1)>>)), rich |-> 1,
                       label |-> "name-same-as-parent/inline-object"]}
+        \* ... and when that inline object has a nested type named like an inline type the parent already has
+        \* (Apple.GammaOne and Apple.Apple.GammaOne): the existing field must keep referring to Apple.GammaOne
+        selfdeep == IF Breadth = "full" /\ c.ctx = "object" /\ Len(GetNode(b, c.path).name.w) > 0
+                       /\ \E i \in 1..n : LET f == GetNode(b, c.path)[c.list][i] IN f.name = FieldNames[1] /\ f.type.k = "inline" /\ f.type.ik = "object"
+                    THEN {[e |-> Plain(Name(GetNode(b, c.path).name.w, "camel"),
+                                       InlineObject(NoName, <<Plain(FieldNames[1], InlineObject(NoName, <<MinField(2)>>))>>)), rich |-> 1,
+                           label |-> "name-same-as-parent/nested-sibling-name"]}
+                    ELSE {}
         \* multi-package bundles exist for the reference forms: only references (and minimal fields) are added there when Focused
         refsOnly == Focused /\ Len(b.pkgs) > 1
     IN {[e |-> MinField(n + 1), rich |-> 0, label |-> ""]} \cup refs
-       \cup (IF refsOnly THEN {} ELSE scal \cup inl \cup names \cup selfname)
+       \cup (IF refsOnly THEN {} ELSE scal \cup inl \cup names \cup selfname \cup selfdeep)
 
 \* R "Oneof": options are objects, inline or by reference
 OptionChoices(b, c, n) ==
